@@ -94,7 +94,9 @@ type Gen struct {
 	// obligation keeps only the lines of blocks that can reach its own block along forward edges
 	lineTag    []int
 	replayMode bool
-	retStates  map[int]retState // per return ordinal: heap and result values (for replay)
+mapModel *ssa.MakeMap // option mapmodel: the one modelled map and its range statement
+	mapRange *ssa.Range
+		retStates  map[int]retState // per return ordinal: heap and result values (for replay)
 	curTag     int
 	tagAnc     map[int]map[int]bool
 	// iterations of unrolled loops with cut points are verified independently: each gets a synthetic tag whose
